@@ -10,6 +10,16 @@ CHECKS = {
   text="Every product returned by mult / PreparedPoint.mult / double_mult_var / multi_mult_var, the low-level Jacobian operations, the modular helpers and the SEC codec is compared at run time with an independent affine reference (brute-force groups on every toy curve the constructor admits, exhaustively over scalars and points; discrete-log bookkeeping and OpenSSL on the 27 catalogued curves, both arms on secp256k1). Malformed curve parameter sets and off-curve points must be refused. Held = no divergence on the executions listed in evidence; not a proof.",
   note="Trusted base: rv/ref/ec.py (affine law, pow(x,-1,p)), OpenSSL via cryptography as second oracle. Curves whose valid parameters the SEC 1 cofactor formula refuses are counted, not judged.",
   ref="DESIGN.md section 3 C01"),
+ "C08": dict(
+  technique="runtime monitoring: differential monitor against an executable transcription of Bitcoin Core's interpreter (self-tested on Core's vectors), structured spend generation, both arithmetic arms",
+  text="Every generated spend (random and structured programs over all byte values, limit-edge builders, signature templates in every legacy/P2SH/segwit-v0 wrapping with reference-made signatures of every kind, taproot key and script paths) is judged at run time by rv/ref/core.py and by verify_input under the same flags; accept/reject must agree, a refusal must be a library exception, and for signature-free programs verify_script's final stack must equal the model's. Held = no divergence other than listed known findings on the executions in evidence.",
+  note="Trusted base: rv/ref/core.py reproduces all applicable script_tests.json / tx_valid.json / tx_invalid.json vectors (re-checked by the oracle-selftest shard on every run; failure => INCONCLUSIVE). No Core binary in the sandbox. Error codes are used to classify divergences only.",
+  ref="DESIGN.md section 3 C08"),
+ "C09": dict(
+  technique="runtime monitoring: reference-model (differential) monitor on generated transactions against transcriptions of Core's SignatureHash / BIP143 / BIP341, self-tested on published vectors",
+  text="Every digest returned by sig_hash.legacy / segwit_v0 / taproot (direct and with PrecomputedTxData), sig_hash.from_tx for every previous-output type, psbt.ecdsa_sig_hash / taproot_sig_hash and the PsbtView equivalents is compared byte for byte at run time with the reference transcription on generated (transaction, index, script code, hash type, amount, annex, extension) tuples; inputs the BIPs declare an error must be refused. Held = no difference on the executions in evidence.",
+  note="Trusted base: rv/ref/core.py sighash transcriptions, re-validated on every run against sighash.json (500), the BIP341 wallet vectors and Core's tx_valid/script_tests witness vectors; failure => INCONCLUSIVE.",
+  ref="DESIGN.md section 3 C09"),
 }
 
 def main():
